@@ -79,6 +79,11 @@ NSlice(a, b, s) == [t |-> "nslice", a |-> a, b |-> b, s |-> s]   \* Slice(a, b, 
 Count == [t |-> "count"]
 RunIf(p, f) == [t |-> "runif", p |-> p, f |-> f]    \* f = "drop": the inner sequence yields nothing;
                                                     \* f = "bad": the inner argument is not an element
+\* RunIf(select, e1, ..., en): the arguments form a Sequence (in any bracketing) that is run for each selected value
+RunIfS(p, body) == [t |-> "runifs", p |-> p, body |-> body]
+\* a plain callable that raises an exception (e: "stop" StopIteration, "value" ValueError, "lena" LenaValueError)
+\* for the value whose data is at, and is the identity otherwise
+Raiser(at, e) == [t |-> "raiser", at |-> at, e |-> e]
 Reverse == [t |-> "reverse"]
 End == [t |-> "end"]
 Sum == [t |-> "sum"]                      \* fill/compute accumulator run through adapters.Run
@@ -208,6 +213,8 @@ OnHave(st, loc, v) ==
     [] st.t = "runif" -> [loc |-> loc, em |-> IF Pred(st.p, v)
                                                THEN (IF st.f = "drop" THEN <<>> ELSE <<ApplyMap(st.f, v)>>)
                                                ELSE <<v>>]
+    [] st.t = "runifs" -> [loc |-> loc, em |-> IF Pred(st.p, v) THEN SemR(st.body, <<v>>) ELSE <<v>>]
+    [] st.t = "raiser" -> [loc |-> loc, em |-> <<v>>]     \* the failing value is handled by the machine / SemF
     [] st.t = "reverse" -> [loc |-> [buf |-> Append(loc.buf, v)], em |-> <<>>]
     [] st.t = "end" -> [loc |-> loc, em |-> <<>>]
     [] st.t = "sum" -> [loc |-> [tot |-> loc.tot + v.d, c |-> v.c], em |-> <<>>]
@@ -258,6 +265,22 @@ PipeRun(prog, xs, eof) ==
 Sem(prog, xs) == PipeRun(prog, xs, TRUE).out
 SemR(prog, xs) == PipeRun(prog, xs, TRUE).out
 
+\* ---- a callable that raises for one value ----
+\* The stream transformation of a plain callable is "apply it to each value": when it raises for a value, the
+\* pipeline has yielded what the later stages make of the values before that one (nothing is flushed: the
+\* stream did not end) and then the exception reaches the consumer - unless a later stage had finished before
+\* the failing value was asked for.  fails: the input of the rest of the pipeline raises instead of ending.
+RECURSIVE FirstAt(_, _, _)
+FirstAt(xs, at, i) == IF i > Len(xs) THEN 0 ELSE IF xs[i].d = at THEN i ELSE FirstAt(xs, at, i + 1)
+RECURSIVE PipeRunF(_, _, _)
+PipeRunF(prog, xs, fails) ==
+  IF prog = <<>> THEN [out |-> xs, failed |-> fails]
+  ELSE LET st == Head(prog) IN
+       IF st.t = "raiser" /\ FirstAt(xs, st.at, 1) > 0
+       THEN PipeRunF(Tail(prog), SubSeq(xs, 1, FirstAt(xs, st.at, 1) - 1), TRUE)
+       ELSE LET r == StageRun(st, InitLoc(st), xs, ~fails) IN PipeRunF(Tail(prog), r.out, ~r.fin)
+SemF(prog, xs) == PipeRunF(prog, xs, FALSE)
+
 Take(xs, m) == SubSeq(xs, 1, IF m < Len(xs) THEN m ELSE Len(xs))
 \* least number of input values after which the pipeline has produced j results
 RECURSIVE MinNeedFrom(_, _, _, _)
@@ -275,12 +298,12 @@ RECURSIVE HasBadSt(_)
 HasBadSt(st) == \/ st.t = "bad"
                 \/ st.t = "runif" /\ st.f = "bad"
                 \/ st.t = "split" /\ \E j \in 1..Len(st.brs) : HasBadSt(st.brs[j])
-                \/ st.t = "seqbr" /\ \E j \in 1..Len(st.body) : HasBadSt(st.body[j])
+                \/ st.t \in {"seqbr", "runifs"} /\ \E j \in 1..Len(st.body) : HasBadSt(st.body[j])
 \* the element keeps nothing between runs: the same object may be run again, also while an earlier run is suspended
 RECURSIVE Reusable(_)
 Reusable(st) == \/ st.t \in {"map", "nodata", "filter", "slice", "lagk", "lastk", "nslice", "runif", "reverse", "end"}
                 \/ st.t = "split" /\ \A j \in 1..Len(st.brs) : Reusable(st.brs[j])
-                \/ st.t = "seqbr" /\ \A j \in 1..Len(st.body) : Reusable(st.body[j])
+                \/ st.t \in {"seqbr", "runifs"} /\ \A j \in 1..Len(st.body) : Reusable(st.body[j])
 \* input values a streaming stage documents to keep (liveness bound of C02): Split one block (while it reads the
 \* next block the previous one is still bound to a local name), Count and RunIf one value, a negative Slice |index|
 AbsNeg(i) == IF i # None /\ i < 0 THEN -i ELSE 0
